@@ -34,6 +34,7 @@ type srvCfg struct {
 	bigMsgs    bool
 	yields     bool // park serve loops at yield sites
 	extraReg   bool // register unrelated handlers while the server runs
+	cnTasks    bool // CloseNotify requested from other goroutines
 }
 
 type plan struct {
@@ -72,6 +73,7 @@ type peerConn struct {
 	answers  []RefMsg
 	late     bool
 	closedSeen bool
+	dc diam.Conn // the diam.Conn of this connection once known
 	guaranteed int // stream bytes the library is known to have received (after a reset: those read before it)
 	wasReset bool
 }
@@ -111,6 +113,7 @@ type srvWorld struct {
 	needClock bool
 	reregLeft int
 	extraRegLeft int
+	cnLeft int
 	yieldsOff atomic.Bool
 	closing   atomic.Bool
 	trailingHandled int
@@ -175,6 +178,9 @@ func (w *srvWorld) handler(hname string) diam.HandlerFunc {
 			sm := w.conns[inv.conn].msgs[inv.seq]
 			pl = sm.plan
 			sm.entered = true
+			if w.conns[inv.conn].dc == nil {
+				w.conns[inv.conn].dc = c
+			}
 		} else if inv.seq >= 1000 {
 			w.trailingHandled++
 		} else {
@@ -443,9 +449,11 @@ func (w *srvWorld) start() {
 func (w *srvWorld) connect(pc *peerConn) {
 	pc.connected = true
 	if pc.dialled {
-		if _, err := diam.NewConn(pc.sc, "sim:3868", w.mux, simDict()); err != nil {
+		c, err := diam.NewConn(pc.sc, "sim:3868", w.mux, simDict())
+		if err != nil {
 			w.e.Harness("NewConn: %v", err)
 		}
+		pc.dc = c
 		w.e.Act("dial", "%s", pc.name)
 		return
 	}
@@ -529,6 +537,9 @@ func (w *srvWorld) runInner() {
 	if cfg.yields {
 		w.installYields()
 	}
+	if cfg.cnTasks {
+		w.cnLeft = t.Draw(4)
+	}
 	w.start()
 	acceptErrsLeft := 0
 	if cfg.acceptErrs {
@@ -579,6 +590,16 @@ func (w *srvWorld) runInner() {
 		}
 		if w.needClock {
 			acts = append(acts, act{kind: "clock", w: 6})
+		}
+		if cfg.cnTasks && w.cnLeft > 0 {
+			for _, pc := range w.conns {
+				w.mu.Lock()
+				has := pc.dc != nil
+				w.mu.Unlock()
+				if has && !pc.sc.Closed() {
+					acts = append(acts, act{kind: "cn-task", pc: pc, w: 3})
+				}
+			}
 		}
 		if w.extraRegLeft > 0 && nActive == 0 && len(w.yielded) == 0 {
 			acts = append(acts, act{kind: "reg-extra", w: 2})
@@ -658,6 +679,17 @@ func (w *srvWorld) runInner() {
 		case "rereg":
 			w.reregLeft--
 			if !w.regTask(w.reRegister) {
+				return
+			}
+		case "cn-task":
+			w.cnLeft--
+			pc := a.pc
+			w.mu.Lock()
+			dc := pc.dc
+			w.mu.Unlock()
+			e.Act("cn-task", "%s", pc.name)
+			e.Probe("closenotify-from-task")
+			if !w.regTask(func() { dc.(diam.CloseNotifier).CloseNotify() }) {
 				return
 			}
 		case "reg-extra":
@@ -1072,7 +1104,7 @@ func (w *srvWorld) finalChecks() {
 		}
 		for i, a := range pc.answers {
 			if d := mirrorDiff(want[i], a); d != "" {
-				e.Fail("C16/answer-mismatch/"+d[:strings.IndexByte(d, ':')], "%s answer %d: %s", pc.name, i, d)
+				e.Fail(cfg.prop+"/answer-mismatch/"+d[:strings.IndexByte(d, ':')], "%s answer %d: %s", pc.name, i, d)
 				return
 			}
 		}
@@ -1327,7 +1359,7 @@ func (w *srvWorld) regTask(f func()) bool {
 		w.e.forceDump = false
 		return true
 	default:
-		w.e.Fail(w.cfg.prop+"/registration-blocked", "registering a handler while no handler was running did not return (the dispatcher lock is held)")
+		w.e.Fail(w.cfg.prop+"/call-blocked", "a call made from another goroutine (handler registration or CloseNotify) while no handler was running did not return (a library lock is held)")
 		return false
 	}
 }
